@@ -11,13 +11,16 @@ tie   : streams overlay-grid / overlay-dbl — generated valid pairs and collect
         GEOSDisjointSubsetUnion, GEOSCoverageUnion, GEOSClipByRect; the Lean driver evaluates the exact arrangement
         oracle (Model/Overlay/Spec.lean) on (A, B, result) plus validity, exception, type / dimension / emptiness rules
         (Model/Overlay/Core.lean) and the exact area identities.  A rejected record IS a violation of C03 on that input.
+        stream overlay-input — the INPUT SIDE of OverlayNG (Model/Overlay/Clip.lean, Props/C03Clip.lean): one LineLimiter object driven
+        through several lines, RobustClipEnvelopeComputer::getEnvelope, EdgeNodingBuilder::build with a recording noder (clipped /
+        limited point lists bit for bit, depth delta, hole flag).
 Genuine defects are matched by structural signatures against KNOWN_FINDINGS.json."""
 import os, json, glob, re
 import verif, gtok
 from verif import log
 
 LEVEL = "proof"
-PROPS = ["GeosModel.Props.C03"]
+PROPS = ["GeosModel.Props.C03", "GeosModel.Props.C03Clip"]
 DRV = "drv_c03"
 
 
@@ -61,18 +64,48 @@ def parse_msg(m):
 
 
 def corner_hit(d, a):
-    """GEOSClipByRect only: does a vertex of the input coincide with a corner of the clip rectangle? (exact, on the bit patterns)"""
+    """GEOSClipByRect only: does the linework of the input pass exactly through a corner of the clip rectangle — a vertex on the corner, or
+    a corner lying on a segment (exact rational test on the bit patterns)?  That is the condition under which an end point of a clipped
+    piece falls on a corner of the rectangle, where RectangleIntersection's position code is ambiguous (two edges at once)."""
     t = d["opv"].split(":")
     if len(t) < 6 or a is None:
         return False
-    x0, y0, x1, y1 = t[2:6]
-    def canon(h):          # -0.0 == 0.0
-        return "0000000000000000" if h == "8000000000000000" else h
-    xs, ys = {canon(x0), canon(x1)}, {canon(y0), canon(y1)}
-    toks = a.split()
-    for i in range(len(toks) - 1):
-        if len(toks[i]) == 16 and len(toks[i + 1]) == 16 and canon(toks[i]) in xs and canon(toks[i + 1]) in ys:
-            return True
+    try:
+        cs = [(_frac(x), _frac(y)) for x in (t[2], t[4]) for y in (t[3], t[5])]
+        g = gtok.parse(a)[1]
+    except Exception:
+        return False
+    if any(x is None or y is None for x, y in cs):
+        return False
+    chains = []
+    def walk(e):
+        tag = e[0]
+        if tag in ("L", "R", "C", "P"):
+            chains.append(e[1][1])
+        elif tag == "Y":
+            for r in e[1]:
+                chains.append(r[1])
+        else:
+            for x in e[1]:
+                walk(x)
+    walk(g)
+    for ch in chains:
+        ps = []
+        for p in ch:
+            x, y = _frac(p[0]), _frac(p[1])
+            if x is None or y is None:
+                ps = []
+                break
+            ps.append((x, y))
+        for i, p in enumerate(ps):
+            if p in cs:
+                return True
+            if i + 1 < len(ps):
+                q = ps[i + 1]
+                for c in cs:
+                    if (q[0] - p[0]) * (c[1] - p[1]) - (q[1] - p[1]) * (c[0] - p[0]) == 0 and \
+                       min(p[0], q[0]) <= c[0] <= max(p[0], q[0]) and min(p[1], q[1]) <= c[1] <= max(p[1], q[1]):
+                        return True
     return False
 
 
@@ -158,13 +191,14 @@ def self_noding(line):
 
 def signature(d, a=None, b=None):
     """Structural key of a failing record, used to match KNOWN_FINDINGS.json.
-    class clip: + cornerHit (a vertex of the input lies exactly on a corner of the clip rectangle)
+    class clip: + cornerHit (the linework of the input passes exactly through a corner of the clip rectangle: a vertex on it or a segment through it)
     class : pointset (a face / 1-cell / node of the arrangement has the wrong membership; dir = missing | extra)
             | invalid | exception (+ exc) | crash | emptyrule | emptytype | dim | type | area | clip
     gc    : an input is a GeometryCollection (handled by StructuredCollection in HeuristicOverlay.cpp)
     gc = true                      : + op (int uni dif sym uu dsu cu clip)
-    gc = false, nearIncidence      : a vertex within rounding distance of a segment of the other input / near-collinear overlap
-                                     (arbitrary doubles): the whole family of near-degenerate robustness failures is ONE key
+    gc = false, nearIncidence      : a vertex within rounding distance of a segment of the other input WITHOUT lying exactly on it / an
+                                     overlap that is collinear only up to rounding (arbitrary doubles; driver flag inexact=1): the whole
+                                     family of near-degenerate robustness failures is ONE key.  Exact contacts do not count.
     gc = false, not nearIncidence  : + op, dir, dims (sorted dimensions of the two operands)"""
     cl = d["clause"]
     sig = {"gc": d.get("gc") == "1"}
@@ -174,7 +208,10 @@ def signature(d, a=None, b=None):
         sig["class"] = cl
     if cl == "exception":
         sig["exc"] = d.get("exc", "?")
-    near = d.get("near") == "1"
+    # nearIncidence = a (near-)degenerate contact of the two inputs that is NOT exact (a vertex within rounding distance of the other
+    # input's linework without lying on it, edges collinear only up to rounding).  Exact contacts (grid inputs) are decided exactly by
+    # the robust predicates: a failure there is not the recorded floating-noder robustness family
+    near = d.get("inexact", d.get("near")) == "1"
     if not sig["gc"]:
         sig["nearIncidence"] = near
     if sig["gc"] and sig["class"] == "pointset" and d["op"] in ("int", "uni", "dif", "sym"):
@@ -198,7 +235,7 @@ def signature(d, a=None, b=None):
 
 def same_kind(d0, d):
     return d["op"] == d0["op"] and d["variant"] == d0["variant"] and signature(d)["class"] == signature(d0)["class"] and \
-        (d.get("inR") == d0.get("inR")) and d.get("near") == d0.get("near") and d.get("gc") == d0.get("gc")
+        (d.get("inR") == d0.get("inR")) and d.get("near") == d0.get("near") and d.get("inexact") == d0.get("inexact") and d.get("gc") == d0.get("gc")
 
 
 def shrink(exe, a, b, d0, budget=160):
@@ -240,6 +277,8 @@ def run(ctx):
         "inside the band membership of 1-cells / nodes is three-valued (Spec.lean `opts`): a wrong line piece that stays within 1e-9·magnitude of the specified result is not detected",
         "validity of inputs is filtered and validity of results is decided with GEOSisValid (plus a light exact check in the driver: rings closed, no proper crossings)",
         "GEOSClipByRect: geos_c.h documents 'not guaranteed to return valid results' — only the point set closure(A ∩ interior(rect)) is compared",
+        "input side (stream overlay-input): RingClipper's crossing points are recomputed with Lean's binary64 `Float` (no theorem speaks about them); the "
+        "traversal of Multi* operands is done by the driver (polysOf / linesOf); GeometryCollection operands and fixed precision models are not covered there",
         "the noding / labelling / ring assembly of OverlayNG and the fallback ladder of OverlayNGRobust are not modelled: tied only by correspondence; which rung answered is observed from outside by re-running the public building blocks (statistics only)",
     ])
     # translator tie: the three decision functions are regenerated from the current C++ and proved equal to Model/Overlay/Core.lean
@@ -269,6 +308,28 @@ def run(ctx):
         idx, case, exp, got = r["disagreements"][0]
         core_broken = {"kind": "tie-broken", "correspondence": "overlay-core", "case": case, "impl": exp, "model": got,
                        "note": "R op l0 l1 = OverlayNG::isResultOfOp; D op d0 d1 = OverlayUtil::resultDimension; T d = createEmptyResult type; E op|boxA|boxB = OverlayUtil::isEmptyResult"}
+    # ---- (1b) INPUT-SIDE tie: what EdgeNodingBuilder hands to the noder.  One LineLimiter object driven through several lines,
+    #           RobustClipEnvelopeComputer::getEnvelope, and EdgeNodingBuilder::build with a recording noder (clipped / limited point
+    #           lists bit for bit, depth delta, hole flag) against Model/Overlay/Clip.lean (theorems: Props/C03Clip.lean)
+    r = verif.run_stream(exe, "overlay-input", ctx.seed, 6000 if quick else 80000, ctx.work, shards=4, driver_exe=DRV)
+    corr["overlay-input"] = {"cases": r["cases"], "disagreements": len(r["disagreements"]) + r.get("more_disagreements", 0), "distribution": r["stats"]}
+    input_broken = []
+    if r["error"]:
+        ctx.violation("stream overlay-input could not run: " + r["error"], {"kind": "tie-broken", "correspondence": "overlay-input", "detail": r["error"]}, nofail=True)
+    else:
+        NOTE = {"LS": "LineLimiter: ONE limiter object, limit() called for each line in turn; model Clip.limitSeq (= a fresh limiter per line, limitSeq_eq_map); "
+                      "a difference means a section with a vertex / segment that is not the line's (limit_points_from_input) or a lost inside vertex (limit_keeps_inside)",
+                "CE": "RobustClipEnvelopeComputer::getEnvelope(a, b, target); model Clip.robustClipEnv; the envelope must protect every shell AND hole segment whose "
+                      "envelope meets the target (robustClipEnv_protects)",
+                "EI": "EdgeNodingBuilder::build with a recording noder: per segment string 'E <geomIndex> <dim> <depthDelta> <isHole> <n> <keys>'; model Clip.addPolygonRing / "
+                      "addLines (clip = RingClipper in binary64, depth delta from Orientation::isCCW of the ORIGINAL ring, clipped_ring_orientation_differs)"}
+        kinds = []
+        for idx, case, exp, got in r["disagreements"]:
+            k = case.split(" ", 1)[0]
+            if k in kinds:
+                continue
+            kinds.append(k)
+            input_broken.append({"kind": "tie-broken", "correspondence": "overlay-input/" + k, "case": case[:4000], "impl": exp[:3000], "model": got[:3000], "note": NOTE.get(k, "")})
     # ---- (2) whole-engine correspondence against the exact point-set oracle
     plan = (("overlay-grid", 4000 if quick else 40000), ("overlay-dbl", 2000 if quick else 24000))
     for stream, n in plan:
@@ -369,6 +430,9 @@ def run(ctx):
                                "result_wkt": res, "verdict": sd["raw"], "signature": sig}, signature=sig)
         corr[stream]["failure_classes"] = classes
     ctx.cov["support_correspondence"] = corr
+    for ib in input_broken:
+        # reported after the whole-engine streams: when they found a failing overlay input as well, this names the cause
+        ctx.violation("the input preparation of OverlayNG no longer equals its Lean model (%s: %s)" % (ib["correspondence"], ib["note"][:160]), ib, nofail=True)
     if core_broken:
         ctx.violation("a decision function of OverlayNG no longer equals its Lean model (%s: impl %s, model %s)" % (core_broken["case"], core_broken["impl"], core_broken["model"]),
                       core_broken, nofail=True)
